@@ -818,6 +818,10 @@ class LabelList(Model):
         n, elem, cnt = self._get(self.h.S)
         return _mutable_copy(n, elem, cnt)
 
+    def m_filter_view(self, it, pred):
+        n, elem, cnt = self._get(self.h.S)
+        return FilterView(it, n, elem, cnt, pred)
+
     def m_listcomp_filter_neq(self, it, x):
         """[e for e in self if e != x]  ->  every occurrence of x removed (order of the rest kept)"""
         n, elem, cnt = self._get(self.h.S)
@@ -931,6 +935,55 @@ class TailList(Model):
 
 def _mutable_copy(n, elem, count):
     return MutLabelList(n, (lambda i, elem=elem: elem(i)), (lambda l, count=count: count(l)))
+
+
+class FilterView(Model):
+    """[x for x in src if P(x)] for a label list src of symbolic length: an order-preserving sub-list.
+    count(l) = count_src(l) if P(l) else 0; positions through a strictly increasing embedding emb into the positions of
+    src whose image is exactly the positions satisfying P (semantics of the filter comprehension); when P holds
+    everywhere the view is src itself."""
+    prefix = []
+    is_label_list_view = True
+    _k = 0
+
+    def __init__(self, it, src_n, src_elem, src_count, pred):
+        FilterView._k += 1
+        k = FilterView._k
+        ctx = it.ctx
+        self.pred = pred
+        self.n = ctx.fresh(I, 'flt_n')
+        ef = z3.Function(f'flt_elem!{k}', I, LabelSort)
+        emb = z3.Function(f'flt_emb!{k}', I, I)
+        inv = z3.Function(f'flt_inv!{k}', I, I)
+        idx = z3.Function(f'flt_idx!{k}', LabelSort, I)
+        self.elem = lambda i: ef(i)
+        self.count = lambda l: z3.If(pred(l), src_count(l), 0)
+        self.emb = lambda i: emb(i)
+        i, j, l = z3.Int('i!fv'), z3.Int('j!fv'), z3.Const('l!fv', LabelSort)
+        n = self.n
+        ctx.assume(z3.And(n >= 0, n <= src_n))
+        ctx.assume(z3.ForAll([i], z3.Implies(z3.And(i >= 0, i < n), z3.And(emb(i) >= 0, emb(i) < src_n, ef(i) == src_elem(emb(i)), pred(ef(i)), inv(emb(i)) == i)), patterns=[ef(i)]))
+        ctx.assume(z3.ForAll([i, j], z3.Implies(z3.And(i >= 0, i < j, j < n), emb(i) < emb(j)), patterns=[z3.MultiPattern(emb(i), emb(j))]))
+        ctx.assume(z3.ForAll([j], z3.Implies(z3.And(j >= 0, j < src_n, pred(src_elem(j))), z3.And(inv(j) >= 0, inv(j) < n, emb(inv(j)) == j)), patterns=[inv(j)]))
+        ctx.assume(z3.ForAll([l], z3.Implies(self.count(l) > 0, z3.And(idx(l) >= 0, idx(l) < n, ef(idx(l)) == l))))
+        # a filter whose predicate holds for every element is the identity
+        ctx.assume(z3.Implies(z3.ForAll([j], z3.Implies(z3.And(j >= 0, j < src_n), pred(src_elem(j)))),
+                              z3.And(n == src_n, z3.ForAll([i], z3.Implies(z3.And(i >= 0, i < n), ef(i) == src_elem(i))))))
+
+    def concrete_len(self, it=None):
+        return None
+
+    def m_len(self, it):
+        return Sym(self.n)
+
+    def m_contains(self, it, x):
+        return _simp(self.count(it.label_term(x)) > 0)
+
+    def m_copy_list(self, it):
+        return self
+
+    def m_iter(self, it):
+        raise Unsupported('iteration over a filtered label list needs a loop invariant')
 
 
 class ListIndex:
@@ -1298,7 +1351,7 @@ class ForallInDom(object):
         if isinstance(iterable, BlockList):
             iterable.bind(it)
             return True
-        return isinstance(iterable, (AbsLabelSeq, OpsSeq, LabelList)) and iterable.concrete_len(it) is None
+        return isinstance(iterable, (AbsLabelSeq, OpsSeq, LabelList, FilterView)) and iterable.concrete_len(it) is None
 
     def havoc(self, it, env):
         pass
